@@ -1200,6 +1200,14 @@ class Exec:
         raise Unsupported("unary op %s on %r" % (type(e.op).__name__, v))
 
     def ex_BoolOp(self, e, fr):
+        if getattr(self, "nofork", 0):
+            # side evaluation (filter of a comprehension, generic element): operands are pure boolean expressions here, the truth
+            # value of `a and b` / `a or b` is all that is used
+            vals = [self.eval(x, fr) for x in e.values]
+            if all(isinstance(v, bool) or (is_sym(v) and z3.is_bool(v)) for v in vals):
+                zs = [z3.BoolVal(v) if isinstance(v, bool) else v for v in vals]
+                return z3.And(*zs) if isinstance(e.op, ast.And) else z3.Or(*zs)
+            raise Unsupported("non-boolean operands of and/or in a side evaluation")
         # short-circuit with forking: exact Python semantics (value of the deciding operand)
         v = None
         for i, x in enumerate(e.values):
@@ -1257,6 +1265,15 @@ class Exec:
 
     def ex_DictComp(self, e, fr):
         pairs = self.comprehension(e, fr, lambda f: (self.eval(e.key, f), self.eval(e.value, f)))
+        if isinstance(pairs, SymSeq):
+            # {k: v for ... in <symbolic-length seq>} with integer keys and values: a dictionary of unknown size whose CONTENTS ARE NOT
+            # MODELLED (unconstrained membership / values: an over-approximation)
+            from .dicts import SymMap
+            pk = z3.Int(fresh_name("dk"))
+            k0, v0 = self.side_eval(z3.And(pk >= 0, pk < z(pairs.length)), lambda: pairs.item(pk))
+            if is_int_like(k0) and is_int_like(v0):
+                return SymMap.fresh("dictcomp", z3.IntSort())
+            raise Unsupported("dict comprehension over a symbolic iteration space with non-integer keys/values")
         d = {}
         for k, v in pairs:
             self.setitem(d, k, v, e)
